@@ -47,6 +47,7 @@ func init() {
 	reg1("C20Log", SetupC20Log, HarnessC20Log)
 	reg1("C15Panic", SetupC15Panic, HarnessC15Panic)
 	reg1("C10HostLimits", SetupC10HostLimits, HarnessC10HostLimits)
+	reg1("C20Conc", SetupC20Conc, HarnessC20Conc)
 	reg1("C15Redact", SetupC15Redact, HarnessC15Redact)
 	reg1("C15Txn", SetupC15Txn, HarnessC15Txn)
 	reg1("C16Alloc", SetupC16Alloc, HarnessC16Alloc)
